@@ -1,17 +1,10 @@
 import CkcVerif.Model.Five
+import CkcVerif.Model.Card
+import CkcVerif.Model.Sort
 /-!
 # `HandValidator`, sorting and suit shifting for the six containers `Two … Seven`
 -/
 namespace CK
-
-/-- `sort_unstable(); reverse()` on the slot array (`core`'s sort is given its documented meaning:
-    an ascending rearrangement; on integers stability is unobservable) -/
-def sortDesc (l : List Nat) : List Nat := (l.mergeSort (fun a b => decide (a ≤ b))).reverse
-
-/-- the scan of `Six/Seven::are_unique` over the sorted copy -/
-def scan : Nat → List Nat → Bool
-  | _, [] => true
-  | last, c :: cs => if c ≥ last then false else scan c cs
 
 /-- `are_unique`, as written for each size -/
 def areUnique : List Nat → Bool
